@@ -77,14 +77,21 @@ pub struct BitSeq {
 impl BitSeq { 
     pub const MAX_LEN: usize = 64;
 
+    // the lowest `len` bits set, total on 0 ..= MAX_LEN.
+    fn mask(len: usize) -> u64 { 
+        assert!(len <= Self::MAX_LEN);
+        if len == Self::MAX_LEN { u64::MAX } else { (1 << len) - 1 }
+    }
+
     pub fn new(val: u64, len: usize) -> Self { 
         assert!(len <= Self::MAX_LEN);
-        assert!(val < (1 << len));
+        assert!(val <= Self::mask(len));
         Self { val, len }
     }
 
     pub fn new_rev(val: u64, len: usize) -> Self { 
-        let val = val.reverse_bits() >> (64 - len);
+        assert!(len <= Self::MAX_LEN);
+        let val = if len == 0 { 0 } else { val.reverse_bits() >> (64 - len) };
         Self::new(val, len)
     }
 
@@ -97,7 +104,7 @@ impl BitSeq {
     }
 
     pub fn ones(len: usize) -> Self { 
-        let val = (1 << len) - 1;
+        let val = Self::mask(len);
         Self::new(val, len)
     }
 
@@ -151,6 +158,7 @@ impl BitSeq {
     }
 
     pub fn push(&mut self, b: Bit) {
+        assert!(self.len < Self::MAX_LEN);
         if b.is_one() { 
             self.val |= 1 << self.len;
         }
@@ -167,15 +175,17 @@ impl BitSeq {
 
     pub fn append(&mut self, b: BitSeq) {
         assert!(self.len + b.len <= Self::MAX_LEN);
-        self.val |= b.val << self.len;
+        if b.len > 0 { 
+            self.val |= b.val << self.len;
+        }
         self.len += b.len;
     }
 
     pub fn remove(&mut self, i: usize) { 
         assert!(i < self.len);
         
-        let a = self.val & !((1 << (i + 1)) - 1);
-        let b = self.val & ((1 << i) - 1);
+        let a = self.val & !Self::mask(i + 1);
+        let b = self.val & Self::mask(i);
 
         self.val = a >> 1 | b;
         self.len -= 1;
@@ -211,18 +221,18 @@ impl BitSeq {
 
     pub fn sub(&self, l: usize) -> Self { 
         assert!(l <= self.len);
-        let val = self.val & ((1 << l) - 1);
+        let val = self.val & Self::mask(l);
         Self::new(val, l)
     }
 
     pub fn is_sub(&self, other: &Self) -> bool { 
         self.len <= other.len && 
-        self.val == (other.val & ((1 << self.len) - 1))
+        self.val == (other.val & Self::mask(self.len))
     }
 
     pub fn generate(len: usize) -> impl Iterator<Item = BitSeq> {
         assert!(len <= Self::MAX_LEN);
-        (0..2_u64.pow(len as u32)).map(move |v| Self::new(v, len))
+        (0..=Self::mask(len)).map(move |v| Self::new(v, len))
     }
 }
 
